@@ -74,3 +74,328 @@ Print Assumptions C18_deadlock_free.
 (* the pattern in RepoCacheBug.Query(nil): the same lock acquired again while held violates the discipline *)
 Example reentrant_not_wo : ~ wo [] [Acq 1; Acq 1; Rel 1; Rel 1].
 Proof. cbn. intros [_ [H _]]. specialize (H 1 (or_introl eq_refl)). lia. Qed.
+
+(* ------------------------------------------------------------------------------------------------ *)
+(* Reader/writer locks, as sync.RWMutex: a writer announces itself (WReq) and then waits (WAcq) until
+   nobody holds the lock; a reader (RAcq) waits while a writer holds the lock OR is announced and
+   waiting (Go's writer preference).  Locks are not owner-checked away: a configuration in which some
+   thread is unfinished and nobody can step is a reachable state of this machine (deadlock).          *)
+
+Inductive rinstr := RAcq (l : nat) | RRel (l : nat) | WReq (l : nat) | WAcq (l : nat) | WRel (l : nat) | Nop.
+(* held locks with their mode (true = write) *)
+Record rthread := mkrt { hl : list (nat * bool); rprog : list rinstr }.
+
+Definition heq (a b : nat * bool) := Nat.eqb (fst a) (fst b) && Bool.eqb (snd a) (snd b).
+Fixpoint rm1 (x : nat * bool) (h : list (nat * bool)) :=
+  match h with [] => [] | y :: t => if heq x y then t else y :: rm1 x t end.
+
+Definition holds (l : nat) (t : rthread) := existsb (fun p => Nat.eqb (fst p) l) (hl t).
+Definition holdsW (l : nat) (t : rthread) := existsb (fun p => Nat.eqb (fst p) l && snd p) (hl t).
+Definition pendingb (l : nat) (t : rthread) := match rprog t with WAcq l' :: _ => Nat.eqb l' l | _ => false end.
+
+Definition enabledb (ts : list rthread) (t : rthread) : bool :=
+  match rprog t with
+  | [] => false
+  | RAcq l :: _ => forallb (fun u => negb (holdsW l u) && negb (pendingb l u)) ts
+  | WAcq l :: _ => forallb (fun u => negb (holds l u)) ts
+  | _ => true
+  end.
+
+Definition exec1 (t : rthread) : rthread :=
+  match rprog t with
+  | [] => t
+  | RAcq l :: r => mkrt ((l, false) :: hl t) r
+  | WAcq l :: r => mkrt ((l, true) :: hl t) r
+  | RRel l :: r => mkrt (rm1 (l, false) (hl t)) r
+  | WRel l :: r => mkrt (rm1 (l, true) (hl t)) r
+  | _ :: r => mkrt (hl t) r
+  end.
+
+Fixpoint upd {A} (l : list A) (n : nat) (x : A) : list A :=
+  match l, n with [], _ => [] | _ :: t, 0 => x :: t | y :: t, S n => y :: upd t n x end.
+
+Definition rstep (ts : list rthread) (n : nat) : option (list rthread) :=
+  match nth_error ts n with
+  | Some t => if enabledb ts t then Some (upd ts n (exec1 t)) else None
+  | None => None
+  end.
+
+(* a schedule is a list of thread numbers; naming a thread that cannot step is a no-op *)
+Fixpoint rrun (sched : list nat) (ts : list rthread) : list rthread :=
+  match sched with
+  | [] => ts
+  | n :: s => rrun s (match rstep ts n with Some ts' => ts' | None => ts end)
+  end.
+
+Definition unfinishedb (t : rthread) := match rprog t with [] => false | _ => true end.
+Definition stuckb (ts : list rthread) : bool :=
+  existsb unfinishedb ts && forallb (fun t => negb (enabledb ts t)) ts.
+
+(* the discipline: locks (either mode) are acquired in strictly increasing rank, all released at the end *)
+Fixpoint wo_rw (h : list (nat * bool)) (p : list rinstr) : Prop :=
+  match p with
+  | [] => h = []
+  | RAcq l :: r => (forall x, In x h -> fst x < l) /\ wo_rw ((l, false) :: h) r
+  | WAcq l :: r => (forall x, In x h -> fst x < l) /\ wo_rw ((l, true) :: h) r
+  | RRel l :: r => wo_rw (rm1 (l, false) h) r
+  | WRel l :: r => wo_rw (rm1 (l, true) h) r
+  | _ :: r => wo_rw h r
+  end.
+
+Fixpoint wob (h : list (nat * bool)) (p : list rinstr) : bool :=
+  match p with
+  | [] => match h with [] => true | _ => false end
+  | RAcq l :: r => forallb (fun x => Nat.ltb (fst x) l) h && wob ((l, false) :: h) r
+  | WAcq l :: r => forallb (fun x => Nat.ltb (fst x) l) h && wob ((l, true) :: h) r
+  | RRel l :: r => wob (rm1 (l, false) h) r
+  | WRel l :: r => wob (rm1 (l, true) h) r
+  | _ :: r => wob h r
+  end.
+
+Lemma wob_sound p : forall h, wob h p = true -> wo_rw h p.
+Proof. induction p as [|i r IH]; intros h H; cbn in *.
+  - destruct h; [reflexivity|discriminate].
+  - destruct i; cbn in *; try (apply IH; exact H);
+      apply andb_true_iff in H as [H1 H2]; (split; [|apply IH; exact H2]);
+      intros x Hx; rewrite forallb_forall in H1; specialize (H1 x Hx); now apply Nat.ltb_lt in H1. Qed.
+
+Lemma rm1_in x y h : In y (rm1 x h) -> In y h.
+Proof. induction h as [|z t IH]; cbn; [tauto|]. destruct (heq x z); cbn; [tauto|]. intros [->|H]; [now left|right; auto]. Qed.
+
+(* programs compose: a thread that runs one disciplined call after another is disciplined *)
+Lemma wo_rw_app p q : wo_rw [] q -> forall h, wo_rw h p -> wo_rw h (p ++ q).
+Proof. intros Q. induction p as [|i r IH]; intros h H; cbn in *.
+  - subst h. exact Q.
+  - destruct i; cbn in *; try (apply IH; exact H); destruct H as [H1 H2]; (split; [exact H1|apply IH; exact H2]). Qed.
+
+Lemma wo_rw_concat ps : Forall (wo_rw []) ps -> wo_rw [] (concat ps).
+Proof. induction 1 as [|p r Hp _ IH]; cbn; [reflexivity|]. now apply wo_rw_app. Qed.
+
+Definition rawaited (t : rthread) : list nat :=
+  match rprog t with RAcq l :: _ => [l] | WAcq l :: _ => [l] | _ => [] end.
+
+Lemma holds_In l t : holds l t = true <-> exists m, In (l, m) (hl t).
+Proof. unfold holds. rewrite existsb_exists. split.
+  - intros ((a, m) & Hin & E). cbn in E. apply Nat.eqb_eq in E. subst a. now exists m.
+  - intros (m & Hin). exists (l, m). split; [exact Hin|]. cbn. apply Nat.eqb_refl. Qed.
+
+Lemma holdsW_holds l t : holdsW l t = true -> holds l t = true.
+Proof. unfold holdsW, holds. rewrite !existsb_exists. intros (p & Hin & E). exists p. split; [exact Hin|].
+  apply andb_true_iff in E. tauto. Qed.
+
+Lemma holder_dec ts l : (forallb (fun u => negb (holds l u)) ts = true) \/ exists u, In u ts /\ holds l u = true.
+Proof. induction ts as [|t r IH]; [now left|]. cbn. destruct (holds l t) eqn:E.
+  - right. exists t. split; [now left|exact E].
+  - destruct IH as [F|(u & Hu & Hl)]; [left; exact F|right; exists u; split; [now right|exact Hl]]. Qed.
+
+(* a holder of m that respects the discipline is unfinished and, if it waits, waits above m *)
+Lemma holder_steps ts u m : In u ts -> wo_rw (hl u) (rprog u) -> holds m u = true ->
+  (forall l, In l (flat_map rawaited ts) -> l <= m) -> enabledb ts u = true.
+Proof. intros Hu Wu Hm Hmax. apply holds_In in Hm as (md & Hin).
+  assert (A : forall l, In l (rawaited u) -> l <= m).
+  { intros l Hl. apply Hmax. apply in_flat_map. exists u. now split. }
+  unfold enabledb. unfold rawaited in A. destruct (rprog u) as [|i r] eqn:P; cbn in Wu.
+  - rewrite Wu in Hin. destruct Hin.
+  - destruct i; try reflexivity; destruct Wu as [Hlt _]; specialize (Hlt _ Hin); cbn in Hlt;
+      specialize (A l (or_introl eq_refl)); lia. Qed.
+
+Theorem C18_deadlock_free_rw (ts : list rthread) :
+  (forall t, In t ts -> wo_rw (hl t) (rprog t)) ->
+  existsb unfinishedb ts = true ->
+  exists t, In t ts /\ enabledb ts t = true.
+Proof. intros W U. apply existsb_exists in U as (t0 & Ht0 & U0).
+  set (aw := flat_map rawaited ts).
+  destruct aw as [|a aw'] eqn:Eaw.
+  - exists t0. split; [exact Ht0|]. unfold enabledb. unfold unfinishedb in U0.
+    destruct (rprog t0) as [|i r] eqn:P; [discriminate|].
+    assert (N : rawaited t0 = []).
+    { destruct (rawaited t0) as [|x xs] eqn:E; [reflexivity|]. exfalso.
+      assert (In x aw) by (unfold aw; apply in_flat_map; exists t0; split; [exact Ht0|rewrite E; now left]).
+      rewrite Eaw in H. destruct H. }
+    unfold rawaited in N. rewrite P in N. destruct i; try reflexivity; discriminate.
+  - destruct (exists_max aw) as (m & Hm & Hmax); [rewrite Eaw; discriminate|].
+    destruct (holder_dec ts m) as [F|(u & Hu & Hl)].
+    + (* nobody holds m *)
+      unfold aw in Hm. apply in_flat_map in Hm as (t & Ht & Hawt). unfold rawaited in Hawt.
+      destruct (rprog t) as [|i r] eqn:P; [destruct Hawt|].
+      destruct i; cbn in Hawt; try contradiction; destruct Hawt as [->|[]].
+      * (* a reader: either it can enter, or an announced writer can *)
+        destruct (existsb (pendingb m) ts) eqn:Pe.
+        -- apply existsb_exists in Pe as (w & Hw & Pw). exists w. split; [exact Hw|].
+           unfold enabledb. unfold pendingb in Pw. destruct (rprog w) as [|[]]; try discriminate.
+           apply Nat.eqb_eq in Pw. subst l. exact F.
+        -- exists t. split; [exact Ht|]. unfold enabledb. rewrite P. apply forallb_forall. intros u Hu.
+           rewrite forallb_forall in F. specialize (F u Hu).
+           assert (holdsW m u = false).
+           { destruct (holdsW m u) eqn:E; [|reflexivity]. apply holdsW_holds in E. rewrite E in F. discriminate. }
+           rewrite H. cbn. destruct (pendingb m u) eqn:E; [|reflexivity].
+           assert (existsb (pendingb m) ts = true) by (apply existsb_exists; exists u; now split). congruence.
+      * exists t. split; [exact Ht|]. unfold enabledb. rewrite P. exact F.
+    + exists u. split; [exact Hu|]. apply (holder_steps ts u m Hu (W u Hu) Hl). exact Hmax. Qed.
+Print Assumptions C18_deadlock_free_rw.
+
+(* the discipline is kept by every step, so the theorem applies along every schedule *)
+Lemma wo_exec1 t : wo_rw (hl t) (rprog t) -> wo_rw (hl (exec1 t)) (rprog (exec1 t)).
+Proof. unfold exec1. destruct (rprog t) as [|i r] eqn:P; [now rewrite P|]. destruct i; cbn; tauto. Qed.
+
+Lemma In_upd {A} (l : list A) n x y : In y (upd l n x) -> y = x \/ In y l.
+Proof. revert n. induction l as [|z t IH]; intros n H; [destruct n; destruct H|].
+  destruct n; cbn in H.
+  - destruct H as [<-|H]; [now left|right; now right].
+  - destruct H as [<-|H]; [right; now left|]. destruct (IH _ H); [now left|right; now right]. Qed.
+
+Lemma rstep_wo ts n ts' : rstep ts n = Some ts' ->
+  (forall t, In t ts -> wo_rw (hl t) (rprog t)) -> forall t, In t ts' -> wo_rw (hl t) (rprog t).
+Proof. unfold rstep. destruct (nth_error ts n) as [t0|] eqn:E; [|discriminate].
+  destruct (enabledb ts t0); [|discriminate]. intros [= <-] W t Ht.
+  apply In_upd in Ht as [->|Ht]; [|now apply W]. apply wo_exec1, W. eapply nth_error_In; eauto. Qed.
+
+Lemma rrun_wo sched : forall ts, (forall t, In t ts -> wo_rw (hl t) (rprog t)) ->
+  forall t, In t (rrun sched ts) -> wo_rw (hl t) (rprog t).
+Proof. induction sched as [|n s IH]; intros ts W; [exact W|]. cbn. apply IH.
+  destruct (rstep ts n) as [ts'|] eqn:E; [|exact W]. eapply rstep_wo; eauto. Qed.
+
+Theorem C18_never_stuck (ts : list rthread) (sched : list nat) :
+  (forall t, In t ts -> wo_rw (hl t) (rprog t)) -> stuckb (rrun sched ts) = false.
+Proof. intros W. unfold stuckb. destruct (existsb unfinishedb (rrun sched ts)) eqn:U; [|reflexivity]. cbn.
+  destruct (C18_deadlock_free_rw (rrun sched ts) (rrun_wo sched ts W) U) as (t & Ht & En).
+  destruct (forallb _ _) eqn:F; [|reflexivity]. rewrite forallb_forall in F. specialize (F t Ht).
+  rewrite En in F. discriminate. Qed.
+
+(* mutual exclusion: while a thread holds a lock for writing nobody else holds it in any mode.
+   This is what allows the data model (CacheConc.v) to treat a lock-protected section as one step. *)
+Definition consistent (ts : list rthread) := forall i j ti tj l, nth_error ts i = Some ti -> nth_error ts j = Some tj ->
+  i <> j -> holdsW l ti = true -> holds l tj = false.
+
+Lemma existsb_rm1 f x h : existsb f (rm1 x h) = true -> existsb f h = true.
+Proof. rewrite !existsb_exists. intros (y & Hy & Fy). exists y. split; [eapply rm1_in; eauto|exact Fy]. Qed.
+
+Lemma holds_exec1 l t : holds l (exec1 t) = true ->
+  holds l t = true \/ (exists r, rprog t = RAcq l :: r) \/ (exists r, rprog t = WAcq l :: r).
+Proof. unfold exec1, holds. destruct (rprog t) as [|i r]; [tauto|]. destruct i; cbn; try tauto.
+  - destruct (Nat.eqb l0 l) eqn:E; cbn; [apply Nat.eqb_eq in E; subst; right; left; eauto|tauto].
+  - intros H. left. eapply existsb_rm1; eauto.
+  - destruct (Nat.eqb l0 l) eqn:E; cbn; [apply Nat.eqb_eq in E; subst; right; right; eauto|tauto].
+  - intros H. left. eapply existsb_rm1; eauto. Qed.
+
+Lemma holdsW_exec1 l t : holdsW l (exec1 t) = true -> holdsW l t = true \/ (exists r, rprog t = WAcq l :: r).
+Proof. unfold exec1, holdsW. destruct (rprog t) as [|i r]; [tauto|]. destruct i; cbn; try tauto.
+  - rewrite andb_false_r. cbn. tauto.
+  - intros H. left. eapply existsb_rm1; eauto.
+  - destruct (Nat.eqb l0 l) eqn:E; cbn; [apply Nat.eqb_eq in E; subst; right; eauto|tauto].
+  - intros H. left. eapply existsb_rm1; eauto. Qed.
+
+Lemma nth_upd {A} (l : list A) n x i : nth_error (upd l n x) i =
+  if Nat.eqb i n then (match nth_error l n with Some _ => Some x | None => None end) else nth_error l i.
+Proof. revert n i. induction l as [|y t IH]; intros n i; cbn.
+  - destruct n, i; cbn; try reflexivity. destruct (Nat.eqb i n); reflexivity.
+  - destruct n, i; cbn; try reflexivity. apply IH. Qed.
+
+Lemma rstep_consistent ts n ts' : rstep ts n = Some ts' -> consistent ts -> consistent ts'.
+Proof. unfold rstep. destruct (nth_error ts n) as [t0|] eqn:E0; [|discriminate].
+  destruct (enabledb ts t0) eqn:En; [|discriminate]. intros [= <-] C i j ti tj l Hi Hj Nij HW.
+  rewrite nth_upd in Hi, Hj. rewrite E0 in Hi, Hj.
+  assert (In0 : In t0 ts) by (eapply nth_error_In; eauto).
+  destruct (Nat.eqb i n) eqn:Ei, (Nat.eqb j n) eqn:Ej.
+  - apply Nat.eqb_eq in Ei, Ej. congruence.
+  - (* the stepping thread is the writer *)
+    apply Nat.eqb_eq in Ei. subst i. injection Hi as <-.
+    destruct (holdsW_exec1 _ _ HW) as [H|(r & P)]; [eapply (C n j); eauto|].
+    unfold enabledb in En. rewrite P in En. rewrite forallb_forall in En.
+    specialize (En tj (nth_error_In _ _ Hj)). now apply negb_true_iff in En.
+  - (* the stepping thread is the other one *)
+    apply Nat.eqb_eq in Ej. subst j. injection Hj as <-.
+    destruct (holds l (exec1 t0)) eqn:H; [|reflexivity]. exfalso.
+    assert (Ini : In ti ts) by (eapply nth_error_In; eauto).
+    destruct (holds_exec1 _ _ H) as [H1|[(r & P)|(r & P)]].
+    + rewrite (C i n ti t0 l Hi E0 Nij HW) in H1. discriminate.
+    + unfold enabledb in En. rewrite P in En. rewrite forallb_forall in En. specialize (En ti Ini).
+      rewrite HW in En. discriminate.
+    + unfold enabledb in En. rewrite P in En. rewrite forallb_forall in En. specialize (En ti Ini).
+      rewrite (holdsW_holds _ _ HW) in En. discriminate.
+  - eapply (C i j); eauto. Qed.
+
+Theorem C18_mutex (ts : list rthread) (sched : list nat) :
+  (forall t, In t ts -> hl t = []) -> consistent (rrun sched ts).
+Proof. intros H0. assert (C0 : consistent ts).
+  { intros i j ti tj l Hi _ _ HW. unfold holdsW in HW. rewrite (H0 ti (nth_error_In _ _ Hi)) in HW. discriminate. }
+  clear H0. revert ts C0. induction sched as [|n s IH]; intros ts C; [exact C|]. cbn. apply IH.
+  destruct (rstep ts n) as [ts'|] eqn:E; [|exact C]. eapply rstep_consistent; eauto. Qed.
+
+(* ------------------------------------------------------------------------------------------------ *)
+(* Lock skeletons of the cache API calls, transcribed from cache/*.go.  Ranks:
+   0 RepoCache.muUserIdentity, 1 bug sub-cache SubCache.mu, 2 identity sub-cache SubCache.mu,
+   3+2b CachedEntityBase.mu of the loaded instance of bug b, 4+2b its withSnapshot.mu (a Mutex: write mode). *)
+Definition LU := 0.  Definition LB := 1.  Definition LI := 2.
+Definition LE (b : nat) := 3 + 2 * b.  Definition LS (b : nat) := 4 + 2 * b.
+Definition wlock l := [WReq l; WAcq l].
+
+(* RepoCache.GetUserIdentity: muUserIdentity.RLock { identities.Resolve (hit): mu.RLock } *)
+Definition sk_user := [RAcq LU; RAcq LI; RRel LI; RRel LU].
+(* SubCache.Resolve, entity already loaded *)
+Definition sk_resolve_hit := [RAcq LB; RRel LB].
+(* SubCache.evictIfNeeded when nothing has to go *)
+Definition sk_evict_none := wlock LB ++ [WRel LB].
+(* SubCache.Resolve on a miss: the read resolves the author through the identity sub-cache.
+   pinned: read outside the lock, then install; repaired: read while holding the write lock *)
+Definition sk_resolve_miss_pinned := [RAcq LB; RRel LB; RAcq LI; RRel LI] ++ wlock LB ++ [WRel LB] ++ sk_evict_none.
+Definition sk_resolve_miss := [RAcq LB; RRel LB] ++ wlock LB ++ [RAcq LI; RRel LI; WRel LB] ++ sk_evict_none.
+(* SubCache.entityUpdated: mu.Lock { makeExcerpt -> Snapshot(): entity RLock { snapshot mutex } }; then write(): mu.RLock *)
+Definition sk_notify b := wlock LB ++ [RAcq (LE b)] ++ wlock (LS b) ++ [WRel (LS b); RRel (LE b); WRel LB; RAcq LB; RRel LB].
+(* BugCache.AddCommentRaw & co: entity Lock { withSnapshot.Append: snapshot mutex }; notifyUpdated *)
+Definition sk_append b := wlock (LE b) ++ wlock (LS b) ++ [WRel (LS b); WRel (LE b)] ++ sk_notify b.
+(* CachedEntityBase.Commit *)
+Definition sk_commit b := wlock (LE b) ++ wlock (LS b) ++ [WRel (LS b); WRel (LE b)] ++ sk_notify b.
+(* SubCache.add (new bug): mu.Lock; evictIfNeeded; entityUpdated *)
+Definition sk_add b := wlock LB ++ [WRel LB] ++ sk_evict_none ++ sk_notify b.
+Definition sk_allids := [RAcq LB; RRel LB].
+(* RepoCacheBug.Query(q), q <> nil: mu.RLock { matcher resolves identity excerpts: identities mu.RLock } *)
+Definition sk_query_q := [RAcq LB; RAcq LI; RRel LI; RRel LB].
+(* RepoCacheBug.Query(nil): pinned = mu.RLock { AllIds: mu.RLock }; repaired = AllIds only *)
+Definition sk_query_nil_pinned := [RAcq LB; RAcq LB; RRel LB; RRel LB].
+Definition sk_query_nil := sk_allids.
+(* evictIfNeeded evicting the instance of bug b: mu.Lock { NeedCommit: entity RLock; entity Lock, never released } *)
+Definition sk_evict b := wlock LB ++ [RAcq (LE b); RRel (LE b)] ++ wlock (LE b) ++ [WRel LB].
+
+Inductive lcall := CUser | CHit | CMiss | CAppend (b : nat) | CCommit (b : nat) | CAdd (b : nat) | CAllIds | CQueryQ | CQueryNil.
+Definition skel (c : lcall) : list rinstr :=
+  match c with
+  | CUser => sk_user | CHit => sk_resolve_hit | CMiss => sk_resolve_miss | CAppend b => sk_append b
+  | CCommit b => sk_commit b | CAdd b => sk_add b | CAllIds => sk_allids | CQueryQ => sk_query_q | CQueryNil => sk_query_nil
+  end.
+
+Lemma heq_refl x : heq x x = true.
+Proof. unfold heq. now rewrite Nat.eqb_refl, Bool.eqb_reflx. Qed.
+Lemma rm1_head x h : rm1 x (x :: h) = h.
+Proof. cbn. now rewrite heq_refl. Qed.
+
+Ltac wo_step := first [ rewrite rm1_head | progress cbn [wo_rw app wlock] | split ].
+Ltac wo_side := cbn; intros ? ?; repeat match goal with H : _ \/ _ |- _ => destruct H end; subst; cbn;
+  try contradiction; unfold LU, LB, LI, LE, LS; lia.
+
+Lemma skel_wo c : wo_rw [] (skel c).
+Proof. destruct c; unfold skel, sk_user, sk_resolve_hit, sk_resolve_miss, sk_append, sk_commit, sk_add, sk_allids,
+  sk_query_q, sk_query_nil, sk_allids, sk_notify, sk_evict_none; repeat wo_step; try reflexivity; wo_side. Qed.
+
+(* every thread is a sequence of (repaired) cache calls, on any bugs: no schedule gets stuck *)
+Theorem C18_cache_calls_never_stuck (progs : list (list lcall)) (sched : list nat) :
+  stuckb (rrun sched (map (fun p => mkrt [] (concat (map skel p))) progs)) = false.
+Proof. apply C18_never_stuck. intros t Ht. apply in_map_iff in Ht as (p & <- & _). cbn.
+  apply wo_rw_concat. apply Forall_forall. intros x Hx. apply in_map_iff in Hx as (c & <- & _). apply skel_wo. Qed.
+
+(* the pinned Query(nil) leaves the discipline ... *)
+Example reentrant_rlock_not_wo : ~ wo_rw [] sk_query_nil_pinned.
+Proof. cbn. intros [_ [H _]]. specialize (H (LB, false) (or_introl eq_refl)). cbn in H. unfold LB in H. lia. Qed.
+
+(* ... and deadlocks: a reader inside Query(nil), a writer (any entityUpdated) announced in between *)
+Lemma reentrant_rlock_stuck : exists sched,
+  stuckb (rrun sched [mkrt [] sk_query_nil_pinned; mkrt [] (sk_notify 0)]) = true.
+Proof. exists [0; 1]. vm_compute. reflexivity. Qed.
+
+(* the handle of an evicted entity: its lock is never released, the next user of the handle waits forever *)
+Example evict_not_wo b : ~ wo_rw [] (sk_evict b).
+Proof. cbn. intros (_ & _ & _ & H). discriminate H. Qed.
+
+Lemma evicted_handle_stuck : exists sched,
+  stuckb (rrun sched [mkrt [] (sk_evict 0); mkrt [] (sk_resolve_hit ++ sk_append 0)]) = true.
+Proof. exists [1; 1; 0; 0; 0; 0; 0; 0; 0; 1]. vm_compute. reflexivity. Qed.
